@@ -41,6 +41,8 @@ type coSched struct {
 	flushPools bool
 	flushes    int
 	site       string // site of the yield being decided
+	chanBlocks int
+	spins      int // consecutive wake-everybody rounds without progress
 	sticky     int
 	gwSwitches int
 }
@@ -85,6 +87,19 @@ func (s *coSched) choose(mustLeave bool) *coTask {
 	for _, t := range s.tasks {
 		if t.state == 0 {
 			runnable = append(runnable, t)
+		}
+	}
+	if len(runnable) == 0 && mustLeave && s.spins <= 4*len(s.tasks)+4 {
+		// nobody is runnable: let every parked task try again (a channel may have become ready, a lock free, since it parked); if
+		// this keeps happening with no task making a step in between, the run is deadlocked
+		for _, t := range s.tasks {
+			if t.state == 1 {
+				t.state = 0
+				runnable = append(runnable, t)
+			}
+		}
+		if len(runnable) > 0 {
+			s.spins++
 		}
 	}
 	if len(runnable) == 0 {
@@ -172,6 +187,15 @@ func (s *coSched) Yield(site string) {
 		return
 	}
 	s.note(site)
+	s.spins = 0
+	if len(site) > 3 && site[:3] == "sp " {
+		// something may be about to change for tasks parked on a channel: let them poll again when they are next scheduled
+		for _, o := range s.tasks {
+			if o.state == 1 {
+				o.state = 0
+			}
+		}
+	}
 	s.site = site
 	t := s.choose(false)
 	s.site = ""
@@ -196,6 +220,7 @@ func (s *coSched) Lock(try func() bool, site string) {
 	for {
 		if try() {
 			s.note("acquired " + site)
+			s.spins = 0
 			return
 		}
 		s.contended++
@@ -208,6 +233,32 @@ func (s *coSched) Lock(try func() bool, site string) {
 		}
 		s.handoff(self, t)
 	}
+}
+
+// Blocked parks the running task because a channel operation of the library cannot proceed yet. Parked tasks are woken whenever
+// another task unlocks something or is about to perform a synchronisation operation, and - when nobody else can run - all at
+// once, to poll again; if they all park again with nothing having happened in between, the run is deadlocked.
+//
+//go:norace
+func (s *coSched) Blocked(site string) {
+	self := s.cur
+	if self == nil || s.abort {
+		runtime.Gosched()
+		return
+	}
+	s.chanBlocks++
+	self.state, self.site = 1, site
+	s.note("blocked " + site)
+	t := s.choose(true)
+	if t == nil {
+		s.failDeadlock()
+		return
+	}
+	if t == self {
+		self.state = 0
+		return
+	}
+	s.handoff(self, t)
 }
 
 // Unlocked wakes every task parked on a lock (they retry when scheduled) and is a pre-emption point.
